@@ -6,7 +6,7 @@
    Elements are matched across the edit by their immutable identity (r_lbl / e_lbl). *)
 From Coq Require Import List NArith Bool Permutation.
 Import ListNotations.
-Require Import V.C38.Spec V.C38.Clauses V.C38.Rows V.C38.Main V.C40.Proofs V.C40.Refuted.
+Require Import V.C38.Spec V.C38.Clauses V.C38.Rows V.C38.Main V.C40.Proofs V.C40.Pinned.
 Open Scope N_scope.
 
 (* every object that survives the edit ends up with the predicted new ID, or keeps its ID when no
@@ -51,20 +51,6 @@ Theorem C40_rows_after :
     Permutation (rows g') (map (after_row g o) (filter (keep_row o) (rows g))).
 Proof. exact rows_after. Qed.
 
-(* The property is NOT true of d2oracle itself: faithful mini-models of the two deviating computations
-   (V.C40.Refuted) disagree with the edit on concrete diagrams; the witnesses are replayed on the real
-   code by the harness on every run (recorded findings). *)
-Theorem C40_rename_prediction_refuted_for_nested_objects :
-  (go_rename_name g_rename 3 [99] = Some [99; 32; 50] /\ spec_rename_name g_rename 3 [99] = Some [99])
-  /\ (go_rename_name g_rename2 3 [99] = Some [99; 32; 51] /\ spec_rename_name g_rename2 3 [99] = Some [99; 32; 50]).
-Proof. exact rename_root_scope_refuted. Qed.
-
-Theorem C40_move_same_scope_prediction_refuted :
-  go_move_same_scope_deltas g_move 1 [99] = [([[97]], [[99]]); ([[97]; [98]], [[99]; [98; 32; 50]])]
-  /\ option_map (fun g => map r_path (rows g)) (spec_move g_move 1 None [99] false) = Some [[[99]]; [[99]; [98]]; [[98]]]
-  /\ obj_deltas g_move (OpMove 1 None [99] false) = [([[97]], [[99]]); ([[97]; [98]], [[99]; [98]])].
-Proof. exact move_same_scope_prediction_refuted. Qed.
-
 (* non-vacuity: a graph with containers, a name collision on hoisting and parallel edges is well formed,
    every kind of operation applies to it, and its predicted deltas are not empty *)
 Definition ex_graph : graph :=
@@ -86,5 +72,3 @@ Print Assumptions C40_no_delta_for_removed_object.
 Print Assumptions C40_no_delta_for_removed_edge.
 Print Assumptions C40_spec_satisfies_executable_clauses.
 Print Assumptions C40_rows_after.
-Print Assumptions C40_rename_prediction_refuted_for_nested_objects.
-Print Assumptions C40_move_same_scope_prediction_refuted.
